@@ -813,3 +813,79 @@ def tree_program(rng) -> T.Tuple[str, T.Dict[str, str]]:
             main.append("endforeach")
     main += _frag(g, rng.randint(0, 2))
     return '\n'.join(main) + '\n', {k: v for k, v in files.items() if v}
+
+
+# ---------------------------------------------------------------- the alias family, exhaustively
+
+ALIAS_TYPES = {
+    # type: (literal, piece appended by +=, second piece, [method expressions that LOOK like in-place operations])
+    'arr': ("['x']", "['y']", "'z'", ['{v}.flatten()', '{v}.slice()', '{v}.get(0)', '{v}.contains(\'x\')', '{v}.length()', '{v} + [1]']),
+    'nested': ("[['x'], []]", "[['y']]", "[[]]", ['{v}.flatten()', '{v}.slice(0, 1)', '{v}[0] + [1]', '{v}.get(-1)']),
+    'dict': ("{'k': 'x'}", "{'n': 'y'}", "{'k': 'z'}", ['{v}.keys()', '{v}.values()', '{v}.get(\'k\')', '{v}.has_key(\'k\')', '{v} + {\'q\': 1}']),
+    'str': ("'x'", "'y'", "'z'", ['{v}.to_upper()', '{v}.replace(\'x\', \'q\')', '{v}.strip()', '{v}.split(\'x\')', '{v} + \'w\'',
+                               '{v}.substring(0, 1)', '\'-\'.join([{v}])', '\'@0@\'.format({v})']),
+    'int': ('1', '2', '3', ['{v}.to_string()', '{v}.is_even()', '{v} + 1']),
+}
+
+
+def alias_grid() -> T.Iterator[T.Tuple[str, str, T.Dict[str, str]]]:
+    """every way a value gets a second name  x  every way the value was produced  x  every operation that looks as
+    if it changed the value, applied to either name afterwards.  -> (tag, main program, other build files)"""
+    for ty, (lit, p1, p2, methods) in ALIAS_TYPES.items():
+        origins = {
+            'assigned': f'a = {lit}\n',
+            'plusassigned': f'a = {lit}\na += {p1}\n',
+            'plusassigned-twice': f'a = {lit}\na += {p1}\na += {p2}\n',
+            'method-result': (f'a = ([{lit}] + [{lit}])[0]\n' if ty != 'arr' else f"a = ['x', 'y'].slice(0, 1)\n"),
+            'loop-built': f'a = {lit}\nforeach it : [1, 2]\n  a += {p1}\nendforeach\n',
+            'set_variable': f"set_variable('a', {lit})\n",
+            'set_variable-plusassigned': f"set_variable('a', {lit})\na += {p1}\n",
+        }
+        aliases = {
+            'assign': 'b = a\n',
+            'get_variable': "b = get_variable('a')\n",
+            'get_variable-fallback': f"b = get_variable('a', {lit})\n",
+            'fallback-value': "b = get_variable('undefined_name', a)\n",
+            'set_variable': "set_variable('b', a)\n",
+            'set_get_variable': "set_variable('b', get_variable('a'))\n",
+            'foreach-var': 'foreach b : [a]\nendforeach\n',
+            'foreach-dict-var': "foreach kk, b : {'k': a}\nendforeach\n",
+            'array-element': 'w = [a]\nb = w[0]\n',
+            'array-get': 'w = [a, a]\nb = w.get(1)\n',
+            'dict-element': "w = {'k': a}\nb = w['k']\n",
+            'dict-get': "w = {'k': a}\nb = w.get('k')\n",
+            'dict-get-fallback': "b = {}.get('k', a)\n",
+            'ternary': 'b = true ? a : a\n',
+            'paren': 'b = (a)\n',
+            'is_variable-then-assign': "ok = is_variable('a')\nb = a\n",
+            'chain': "c = a\nb = get_variable('c')\n",
+        }
+        ops = {
+            'plusassign-a': f'a += {p1}\n',
+            'plusassign-b': f'b += {p1}\n',
+            'plusassign-a-twice': f'a += {p1}\na += {p2}\n',
+            'plusassign-both': f'a += {p1}\nb += {p2}\na += {p2}\n',
+            'reassign-sum': f'a = a + {p1}\n' if ty != 'arr' else f"a = a + ['y']\n",
+            'plusassign-self': 'a += a\n' if ty not in ('dict',) else "a += a + {'s': 1}\n",
+            'loop-plusassign': f'foreach it : [1, 2]\n  a += {p1}\n  b += {p2}\nendforeach\n',
+            'unset-a': "unset_variable('a')\n",
+        }
+        for i, m in enumerate(methods):
+            ops[f'method-{i}'] = 'r1 = ' + m.replace('{v}', 'a') + '\nr2 = ' + m.replace('{v}', 'b') + f'\na += {p1}\n'
+        for on, o in origins.items():
+            for an, al in aliases.items():
+                for pn, op in ops.items():
+                    tail = 'message(b)\n' if pn == 'unset-a' else 'message(a)\nmessage(b)\n'
+                    yield f'alias:{ty}:{on}:{an}:{pn}', o + al + op + tail, {}
+        # through other build files
+        for on, o in origins.items():
+            for pn in ('plusassign-a', 'plusassign-b', 'plusassign-both'):
+                op = ops[pn]
+                yield (f'alias:{ty}:{on}:subdir-assign:{pn}', o + "subdir('sub')\n" + op + 'message(a)\nmessage(b)\n',
+                       {'sub': "b = get_variable('a')\n"})
+                yield (f'alias:{ty}:{on}:subdir-op:{pn}', o + "b = get_variable('a')\nsubdir('sub')\nmessage(a)\nmessage(b)\n",
+                       {'sub': op})
+                yield (f'alias:{ty}:{on}:subproject-get:{pn}',
+                       "sp = subproject('sp')\na = sp.get_variable('a')\nb = sp.get_variable('a')\n" + op +
+                       "c = sp.get_variable('a')\nmessage(a)\nmessage(b)\nmessage(c)\n",
+                       {'subprojects/sp': "project('sp')\n" + o})
